@@ -6,7 +6,8 @@
 (*                                                                            *)
 (* Cases: the named histories x the table (complete when FullCross, else the  *)
 (* baseline history x the complete table and the others x the Pivot rows),    *)
-(* plus every well-formed history of at most HistLen steps x the Probe rows.  *)
+(* plus every well-formed history of at most HistLen steps x the Probe rows   *)
+(* (x the RaceRows when a listing of the history is split into its steps).    *)
 (* (Longer histories with something falling inside a listing are enumerated   *)
 (* and exported by HeaderMirrorHist; they are run on the RaceRows.)           *)
 EXTENDS HeaderMirrorDefs, Json, SequencesExt
@@ -46,9 +47,12 @@ Probe(r) == /\ <<r.ty, r.val>> \in {<<"string", "ascii">>, <<"string", "absent">
 RaceRow(r) == <<r.ty, r.val, r.depth, r.nsib, r.hname>> \in {<<"string", "ascii", 1, 0, "plain">>, <<"string", "nonascii", 2, 1, "lower">>,
                                                                  <<"integer", "maxsafe", 2, 1, "lower">>, <<"boolean", "false", 1, 0, "plain">>}
 RaceRows == {r \in RowSet : RaceRow(r)}
+\* every listing of the history is atomic ("list")
+Classic(h) == \A i \in DOMAIN h.steps : h.steps[i] \notin {"send", "answer", "deliver"}
 CaseSet == {WithHist(r, Baseline) : r \in RowSet}
            \cup {WithHist(r, h) : r \in {r \in RowSet : FullCross \/ Pivot(r)}, h \in Named}
-           \cup {WithHist(r, h) : r \in {r \in RowSet : Probe(r)}, h \in AllHists}
+           \cup {WithHist(r, h) : r \in {r \in RowSet : Probe(r)}, h \in {h \in AllHists : Classic(h)}}
+           \cup {WithHist(r, h) : r \in RaceRows, h \in {h \in AllHists : ~Classic(h)}}
 HistSet == Named \cup AllHists
 
 \* a lead: some outcome the code-shaped model allows breaks the property (certain: every such outcome does)
